@@ -166,6 +166,90 @@ theorem assemble_zero_no_failure (pre : List Step) (s : Step) (post : List Step)
       rw [assemble_first_failure pre s post e hpre hf] at h
       simp at h
 
+/-! ### The `end` directive and the sticky `error` flag (deferred errors)
+
+  Some handlers report an error and let the loop go on (dsPIC unknown instruction / operand combination; a failed
+  macro expansion inside a data list): they set `asm_context->error`, and the flag is tested once, behind the loop.
+  The loop is left towards that test at EOF *and* at the `end` directive. -/
+
+/-- the pass leaves the loop by `break`: EOF or the `end` directive -/
+def Step.leaves (s : Step) : Bool :=
+  s.ec = 0 && match s.ev with
+    | .eof => true
+    | .word r _ => stmtResult r = .endDirective
+    | _ => false
+
+theorem leaves_act (s : Step) (h : s.leaves = true) : s.act = .leave := by
+  obtain ⟨ec, ev⟩ := s
+  simp only [Step.leaves, Bool.and_eq_true, decide_eq_true_eq] at h
+  obtain ⟨hec, hev⟩ := h
+  subst hec
+  cases ev with
+  | eof => rfl
+  | word r instr => simp only [decide_eq_true_eq] at hev; simp [Step.act, hev]
+  | eol => simp at hev
+  | label r => simp at hev
+  | dir n => simp at hev
+  | other => simp at hev
+
+/-- **`end` leaves the loop THROUGH the flag test.**  Whatever was assembled before it and whatever text follows it,
+    a run that reaches the `end` directive (or EOF) returns what the code behind the loop decides from the sticky
+    flag — not 0 unconditionally. -/
+theorem end_leaves_through_flag_test (pre : List Step) (s : Step) (post : List Step) (e : Bool)
+    (hpre : ∀ x ∈ pre, x.continues = true) (hs : s.leaves = true) :
+    assembleRet (pre ++ s :: post) e = some (afterLoop e) := by
+  induction pre with
+  | nil =>
+      rw [assembleRet_eq_loop]
+      simp only [List.nil_append, assembleLoop, leaves_act s hs]
+  | cons x xs ih =>
+      have hx : x.continues = true := hpre x (by simp)
+      rw [List.cons_append, assembleRet_continues x _ e hx]
+      exact ih (fun y hy => hpre y (by simp [hy]))
+
+/-- **A run that ends through `end` with the error flag set fails** (`directive()` = 2 is the `end` directive; the
+    second component of `.word` is irrelevant, `parse_instruction` is not reached). -/
+theorem end_with_error_flag_fails (pre post : List Step) (instr : Option Int)
+    (hpre : ∀ x ∈ pre, x.continues = true) :
+    assembleRet (pre ++ ⟨0, .word 2 instr⟩ :: post) true = some (-1) := by
+  rw [end_leaves_through_flag_test pre _ post true hpre (by simp [Step.leaves, stmtResult])]
+  rfl
+
+/-- the same at the end of the file -/
+theorem eof_with_error_flag_fails (pre post : List Step) (hpre : ∀ x ∈ pre, x.continues = true) :
+    assembleRet (pre ++ ⟨0, .eof⟩ :: post) true = some (-1) := by
+  rw [end_leaves_through_flag_test pre _ post true hpre (by simp [Step.leaves])]
+  rfl
+
+/-- without a deferred error, `end` ends the call successfully and the text behind it is not read -/
+theorem end_with_clear_flag_succeeds (pre post : List Step) (instr : Option Int)
+    (hpre : ∀ x ∈ pre, x.continues = true) :
+    assembleRet (pre ++ ⟨0, .word 2 instr⟩ :: post) false = some 0 := by
+  rw [end_leaves_through_flag_test pre _ post false hpre (by simp [Step.leaves, stmtResult])]
+  rfl
+
+/-- end to end: a deferred error (flag set, every statement handler "succeeded") in a source that is closed by `end`
+    or runs to its end gives exit status 1 and no output file, in pass 1 as in pass 2 -/
+theorem deferred_error_reaches_exit (pre : List Step) (s : Step) (post : List Step)
+    (hpre : ∀ x ∈ pre, x.continues = true) (hs : s.leaves = true) (o : MainObs)
+    (h : some o.pass1 = assembleRet (pre ++ s :: post) true ∨
+         (o.pass1 = 0 ∧ o.link1ok = true ∧ some o.pass2 = assembleRet (pre ++ s :: post) true))
+    (stale : Bool) :
+    (mainFlow o).status = 1 ∧ outputPresent stale (mainFlow o) = false := by
+  rw [end_leaves_through_flag_test pre s post true hpre hs] at h
+  rcases h with h | ⟨p1, l1, h⟩
+  · have hp : o.pass1 = -1 := by simpa [afterLoop] using h
+    simp [mainFlow, outputPresent, hp]
+  · have hp : o.pass2 = -1 := by simpa [afterLoop] using h
+    simp [mainFlow, outputPresent, p1, l1, hp]
+
+/-- non-vacuity: `mov w0,w1 / frobnicate (dsPIC: returns 4, flag set) / mov w1,w2 / end / junk` fails;
+    the same statements without the deferred error succeed and the junk behind `end` is never looked at -/
+example : assembleRet [⟨0, .word 0 (some 4)⟩, ⟨0, .word 0 (some 4)⟩, ⟨0, .word 0 (some 4)⟩, ⟨0, .word 2 none⟩,
+    ⟨0, .other⟩] true = some (-1) := by decide
+example : assembleRet [⟨0, .word 0 (some 4)⟩, ⟨0, .word 0 (some 4)⟩, ⟨0, .word 2 none⟩, ⟨0, .other⟩] false = some 0 := by
+  decide
+
 /-! ### directives that re-enter assemble() -/
 
 /-- an error in the taken branch of `.if`/`.ifdef`/`.ifndef` is an error of the directive -/
